@@ -519,7 +519,10 @@ PROPS = {
                 "single-byte engine, no token is accepted any more, compute_mask fails and compute_mask_or_eos is exactly {EOS}; illegal "
                 "calls (token outside the mask, id >= vocab) are issued on clones: they must fail and either fail for good or leave the "
                 "clone answering exactly like the untouched engine. Constraint (with / without ff_tokens): sampling loop with out-of-order "
-                "commits and tokens outside the mask on clones, stop latched and sticky, text at stop complete. StopController (Rust and "
+                "commits and tokens outside the mask on clones, stop latched and sticky, text at stop complete; one Constraint case in three "
+                "runs under tight per-step limits (step_max_items 3..400, step_lexer_fuel 20..20000): a mask or commit that runs out of "
+                "budget must surface as an error that stays one (no token taken, no stop announced afterwards), and every stop that IS "
+                "announced is still judged against the byte engine with default limits. StopController (Rust and "
                 "through the same object used by llg_stop_commit_token): random stop tokens / literal stop strings / stop regex (reference "
                 "DFA) over token streams that split stops across tokens, overlap candidates, contain multi-byte characters and special "
                 "tokens; model = earliest match end per segment between special tokens; the concatenated returns must equal the text before "
@@ -527,7 +530,7 @@ PROPS = {
                 "stop + 3 bytes. evaluations = stop decisions compared. Non-trivial = run that reached a stop; distinct by (grammar or stop "
                 "spec, history).",
         "assumptions": ["cases where several stop matches of different lengths end at the same earliest position are skipped (ambiguous exclusion length)"],
-        "quick": {"runs": [q(deadline=45)], "floor": {"matcher_cases": 500, "constraint_cases": 500, "stop_cases": 1000, "stopped_runs": 800, "illegal_calls": 300, "distinct_nontrivial": 600}},
+        "quick": {"runs": [q(deadline=45)], "floor": {"matcher_cases": 500, "constraint_cases": 500, "stop_cases": 1000, "stopped_runs": 800, "illegal_calls": 300, "distinct_nontrivial": 600, "tight_limit_cases": 150, "tight_limit_errors_reported": 5}},
         "thorough": {"runs": [q(deadline=480, watchdog=3600)], "floor": {"matcher_cases": 10000, "stop_cases": 20000}},
     },
     "C19": {
